@@ -497,6 +497,13 @@ def rule_R6(ctx, R):
             continue
         bad = None
         for p in paths:
+            # the holds of a key-carrying guard never go to user code by value (a closure could stash them: they would
+            # outlive the guard - and the key inside it - that stands for them)
+            for e in p.ev("USER"):
+                for a_ in e.get("args", []):
+                    if a_ and a_[0] == "op" and any(a_[1] == g or a_[1].startswith(g + ".") for g in st0.guards):
+                        bad = ("the holds of the consumed guard (%s) are passed by value to user code: they can be moved somewhere "
+                               "that outlives the guard and its key" % ctx.arg_name(f, a_[1]))
             if p.kind != "ret":
                 continue
             key_released = any(e["k"] == "KEYDROP" and str(e.get("val", "")).startswith("a") for e in p.events)
